@@ -283,6 +283,10 @@ class FortranAST:
                     inc.scope_objs = added_entities
 
     def resolve_links(self, obj_tree, link_version):
+        # Declared types are looked up lazily and cached: the cached object may
+        # belong to a previous version of the file that defines the type
+        for var in self.variable_list:
+            var.type_obj = None
         for inherit_obj in self.inherit_objs:
             inherit_obj.resolve_inherit(obj_tree, inherit_version=link_version)
         for linkable_obj in self.linkable_objs:
